@@ -1,7 +1,379 @@
-"""Named alphabets and per-property program spaces (E1)."""
+"""Named alphabets and program spaces shared by the checks (E1).
+
+Everything here is a finite, explicitly materialised list; a case is (list name, index).
+`Names(seed)` relabels the abstract symbols (variable / macro / partial names and the
+literal text characters): different seeds give isomorphic exhaustive runs.
+"""
 
 from __future__ import annotations
 
+import itertools
+from functools import lru_cache
+from typing import Any
+
+from .lang import BLANK
+from .lang import EMPTY
+from .lang import FL
+from .lang import I
+from .lang import NIL
+from .lang import S
+from .lang import TRUE
+from .lang import FALSE
+from .lang import V
+from .lang import Layout
+from .lang import flt
+from .lang import line_form_ok
+from .lang import print_program
+
+RELABEL = [
+    dict(a="a", b="b", g="g", h="h", arr="arr", c="c", m="m", p="p", q="q", i="i", j="j", T="T", U="U"),
+    dict(a="x_1", b="é-x", g="G", h="h-h", arr="list", c="n", m="mac", p="part", q="q2", i="it", j="jt", T="Ω", U="z9"),
+    dict(a="_a", b="b2", g="gg", h="ɦ", arr="a_r", c="cnt", m="m_", p="p-1", q="qq", i="i_", j="j_", T="t", U="Ü"),
+]
+
+
+class Names:
+    def __init__(self, seed: int = 0) -> None:
+        self.map = RELABEL[seed % len(RELABEL)]
+        for k, v in self.map.items():
+            setattr(self, k, v)
+
+
+def data_sets(n: Names) -> list[dict[str, Any]]:
+    """The shared JSON-like data domain: every condition of the grammar takes both truth values,
+    every loop runs 0 and >=1 times, paths hit present / missing / wrong-type values."""
+    return [
+        {},
+        {n.g: 1, n.h: "x", n.arr: [1, 2, 3]},
+        {n.g: 0, n.h: "", n.arr: []},
+        {n.g: "a", n.h: None, n.arr: ["b", "a", "a"]},
+        {n.g: True, n.h: {"a": 1, "size": "S"}, n.arr: [[1, 2], [3]]},
+        {n.g: False, n.h: [1], n.arr: {"a": {"b": [1]}, "k": 2}},
+        {n.g: 1.5, n.h: " ", n.arr: "str"},
+        {n.g: 2, n.h: 2, n.arr: [{"a": 1, "k": "x"}, {"a": 2}, {"k": None}]},
+    ]
+
+
+def partials(n: Names) -> dict[str, tuple]:
+    """Partial templates served by the loader (as mini-AST bodies)."""
+    return {
+        n.p: (
+            ("text", "["),
+            ("out", V(n.a)),
+            ("out", V(n.b)),
+            ("out", V(n.g)),
+            ("assign", n.a, I(9)),
+            ("increment", n.c),
+            ("text", "]"),
+        ),
+        n.q: (
+            ("text", "<"),
+            ("for", n.i, V(n.arr), (), (("out", V(n.i)), ("cycle", None, (S("x"), S("y")))), (("text", "none"),)),
+            ("capture", n.b, (("text", "Q"),)),
+            ("text", ">"),
+        ),
+    }
+
+
+def conds(n: Names) -> list[tuple]:
+    a, b, g, h, arr = n.a, n.b, n.g, n.h, n.arr
+    return [
+        V(g),
+        ("not", V(g)),
+        ("cmp", "==", V(a), I(1)),
+        ("cmp", "==", V(g), V(h)),
+        ("cmp", "contains", V(arr), I(1)),
+        ("and", V(g), V(h)),
+        ("or", V(a), ("cmp", "!=", V(h), S("x"))),
+        ("cmp", "<", V(g), I(2)),
+        ("cmp", "==", V(h), EMPTY),
+        ("cmp", "==", V(h), BLANK),
+    ]
+
+
+def leaves(n: Names) -> list[tuple]:
+    a, b, g, h, arr, c, m, p, q = n.a, n.b, n.g, n.h, n.arr, n.c, n.m, n.p, n.q
+    return [
+        ("text", n.T),
+        ("text", " \n"),
+        ("out", V(a)),
+        ("out", V(g)),
+        ("out", FL(V(a), flt("append", V(b)))),
+        ("out", FL(V(arr), flt("first"))),
+        ("out", V(h, "a")),
+        ("out", V(arr, 0)),
+        ("assign", a, I(1)),
+        ("assign", a, S("s")),
+        ("assign", a, V(b)),
+        ("assign", b, V(g)),
+        ("assign", a, FL(V(arr), flt("reverse"))),
+        ("capture", a, (("text", n.U), ("out", V(g)))),
+        ("increment", c),
+        ("decrement", c),
+        ("increment", a),
+        ("out", V(c)),
+        ("cycle", None, (I(1), I(2))),
+        ("cycle", S("grp"), (I(1), I(2))),
+        ("cycle", None, (V(a), I(2))),
+        ("echo", V(a)),
+        ("break",),
+        ("continue",),
+        ("comment", "hash", " c "),
+        ("comment", "inline", " c "),
+        ("comment", "block", " c "),
+        ("raw", "{{ r }}"),
+        ("macro", m, (("x", None), (b, I(2))), (("text", "("), ("out", V("x")), ("out", V(b)), ("out", V(a)), ("assign", a, I(7)), ("text", ")"))),
+        ("call", m, (I(1),), ()),
+        ("call", m, (), ((b, V(a)),)),
+        ("include", S(p), None, None, False, ()),
+        ("render", p, None, None, False, ()),
+        ("render", p, None, None, False, ((a, V(b)),)),
+        ("include", S(p), V(g), b, False, ()),
+        ("render", q, None, None, False, ((arr, V(arr)),)),
+        ("include", S(q), None, None, False, ()),
+    ]
+
+
+def blocks(n: Names, bodies: list[tuple], bodies2: list[tuple] | None = None) -> list[tuple]:
+    """Every block constructor applied to every candidate body (bodies2: the alternative branch)."""
+    a, b, g, h, arr, i = n.a, n.b, n.g, n.h, n.arr, n.i
+    alt = bodies2 if bodies2 is not None else [(("text", "E"),)]
+    cs = conds(n)
+    out: list[tuple] = []
+    for body in bodies:
+        for cnd in (cs[0], cs[2], cs[7]):
+            out.append(("if", ((cnd, body),), None))
+        out.append(("unless", cs[0], body, (), None))
+        out.append(("for", i, V(arr), (), body, None))
+        out.append(("for", i, ("range", I(1), V(g)), (("limit", I(2)),), body, None))
+        out.append(("for", a, V(arr), (("offset", "continue"), ("limit", I(1))), body, None))
+        out.append(("for", i, V(arr), (("reversed",), ("offset", I(1))), body, None))
+        out.append(("with", ((a, V(g)),), body))
+        out.append(("capture", b, body))
+        out.append(("case", V(g), (((I(1), S("a")), body),), None))
+        for e in alt:
+            out.append(("if", ((cs[0], body),), e))
+            out.append(("if", ((cs[2], body), (cs[3], e)), (("text", "Z"),)))
+            out.append(("for", i, V(arr), (), body, e))
+            out.append(("case", V(g), (((I(1),), body), ((V(h), I(2)), e)), (("text", "D"),)))
+            out.append(("unless", cs[0], body, (), e))
+    return out
+
+
+def liquid_wrap(stmts: list[tuple]) -> list[tuple]:
+    return [("liquid", (s,)) for s in stmts if line_form_ok(s)]
+
+
+@lru_cache(maxsize=8)
+def level0(seed: int = 0) -> tuple[tuple, ...]:
+    return tuple(leaves(Names(seed)))
+
+
+@lru_cache(maxsize=8)
+def level1(seed: int = 0) -> tuple[tuple, ...]:
+    n = Names(seed)
+    l0 = level0(seed)
+    bodies = [(s,) for s in l0]
+    return tuple(blocks(n, bodies))
+
+
+@lru_cache(maxsize=8)
+def level1_small(seed: int = 0) -> tuple[tuple, ...]:
+    """A reduced set of one-level blocks (one per constructor x a few representative bodies)."""
+    n = Names(seed)
+    l0 = level0(seed)
+    pick = [(l0[0],), (l0[2], l0[8]), (l0[14],), (l0[22],), (l0[18],), (l0[33],)]
+    return tuple(blocks(n, pick))
+
+
+@lru_cache(maxsize=8)
+def ops(seed: int = 0) -> tuple[tuple, ...]:
+    """Operation alphabet for composition: leaves, one-level blocks, liquid-tag forms."""
+    l0 = list(level0(seed))
+    l1 = list(level1(seed))
+    return tuple(l0 + l1 + liquid_wrap(l0[:24]))
+
+
+def programs_len2(pool: tuple[tuple, ...]) -> int:
+    return len(pool) + len(pool) ** 2
+
+
+def program_at(pool: tuple[tuple, ...], idx: int) -> tuple:
+    """idx < len(pool): single statement; else pair (row-major)."""
+    m = len(pool)
+    if idx < m:
+        return (pool[idx],)
+    idx -= m
+    return (pool[idx // m], pool[idx % m])
+
+
+def loader_sources(seed: int = 0, lay: Layout | None = None) -> dict[str, str]:
+    n = Names(seed)
+    return {name: print_program(body, lay or Layout()) for name, body in partials(n).items()}
+
 
 def printed_corpus(tier: str) -> list[str]:
-    return []
+    """Printed programs for source-level checks (C17, C02): singles of ops under three layouts."""
+    out: list[str] = []
+    for seed in (0, 1):
+        pool = ops(seed)
+        for st in pool:
+            for style in ("canon", "tight", "loose"):
+                out.append(print_program((st,), Layout(style=style)))
+        l0 = level0(seed)
+        for x, y in itertools.product(l0[:12], l0[:12]):
+            out.append(print_program((x, y), Layout(markers=("-", "", "~", "+"))))
+    return out
+
+
+# ------------------------------------------------------------------ wide expression grammar (C12, C20, C02)
+
+STRINGS = [
+    "", "a", "it's", 'say "hi"', "back\\slash", "new\nline", "tab\there", "${x}", "a${b", "é", "\U0001f600",
+    "ctl\x1f", "bs\b", "ff\f", "cr\r", "del\x7f", "'\"", "{{ x }}", "{% y %}", "#}", " ", "￿", " ", "\\'",
+]
+
+NUMBERS = [0, 1, -1, 7, 2**31, 2**53 + 1, 10**20, -(10**20), 1.5, -2.5, 0.1, 1e16, 1e-7]
+
+
+def wide_primitives(n: Names) -> list[tuple]:
+    a, g, h, arr = n.a, n.g, n.h, n.arr
+    prims: list[tuple] = [NIL, TRUE, FALSE, EMPTY, BLANK]
+    prims += [("int", x) if isinstance(x, int) else ("float", x) for x in NUMBERS]
+    prims += [("raw", s) for s in ("1e3", "2E+2", "1.5e2", "25e-1", "-3e2")]
+    prims += [S(s) for s in STRINGS]
+    prims += [
+        V(g), V(h, "a"), V(arr, 0), V(arr, -1), V(h, ("q", "a")), V(h, ("q", "a b")), V(h, ("q", "it's")),
+        V(arr, ("p", V(g))), V(h, ("p", V(a))), V(arr, "first"), V(arr, "last"), V(arr, "size"), V(h, "size"),
+        V(arr, 0, "a"), V(arr, ("q", "a"), "b", 0), V(arr, ("p", V(h, "a"))),
+        ("range", I(1), I(3)), ("range", V(g), I(3)), ("range", I(1), V(h, "a")), ("range", S("1"), S("2")),
+        ("tstr", (("lit", "x"), FL(V(g)), ("lit", "y"))),
+        ("tstr", (FL(V(g), flt("upcase")),)),
+        ("tstr", (("lit", "it's ${"), FL(S("in'ner")), ("lit", '"q"'))),
+        ("tstr", (FL(("tstr", (("lit", "n"), FL(V(g)))), flt("append", S("!"))), ("lit", "z"))),
+    ]
+    return prims
+
+
+def wide_filters(n: Names) -> list[tuple]:
+    """Filter chains (as tuples of filters) exercising every argument shape."""
+    a, g, h = n.a, n.g, n.h
+    x = "x"
+    return [
+        (),
+        (flt("upcase"),),
+        (flt("append", S("z")),),
+        (flt("slice", I(1), I(2)),),
+        (flt("slice", I(-2)),),
+        (flt("replace", S("a"), S("b")),),
+        (flt("default", S("d"), ("kw", "allow_false", TRUE)),),
+        (flt("default", V(g)), flt("append", V(h, "a"))),
+        (flt("map", S("a")),),
+        (flt("map", ("lambda", (x,), V(x, "a"))),),
+        (flt("where", S("a"), I(1)),),
+        (flt("where", ("lambda", (x,), ("cmp", "==", V(x, "a"), I(1)))), flt("map", S("a")), flt("join", S("-"))),
+        (flt("find", ("lambda", (x, "idx"), ("and", ("cmp", ">", V("idx"), I(0)), V(x)))),),
+        (flt("sort", ("lambda", (x,), V(x, "a"))), flt("first")),
+        (flt("join", S(", ")),),
+        (flt("json"),),
+        (flt("split", S(",")), flt("last")),
+        (flt("plus", ("float", 1.5)), flt("times", ("int", -2))),
+        (flt("truncate", I(3), S("")),),
+        (flt("concat", V(g)),),
+        (flt("date", S("%Y")),),
+    ]
+
+
+def wide_exprs(n: Names, tier: str = "quick") -> list[tuple]:
+    prims = wide_primitives(n)
+    filters = wide_filters(n)
+    a, g, h, arr = n.a, n.g, n.h, n.arr
+    out: list[tuple] = []
+    for p in prims:
+        out.append(FL(p))
+    bases = [V(g), V(arr), S("a,b"), I(3), NIL, V(h, "a"), ("range", I(1), I(3)), S("it's")]
+    for base in bases:
+        for fs in filters[1:]:
+            out.append(FL(base, *fs))
+    # array literals
+    out += [
+        FL(("array", (I(1), I(2), I(3)))),
+        FL(("array", (S("a"), S("b c"), V(g))), flt("join", S("+"))),
+        FL(("array", (V(g), NIL, TRUE, ("float", 1.5)))),
+    ]
+    # ternaries
+    cs = conds(n)
+    for c in (cs[0], cs[2], cs[5], cs[6], ("not", ("paren", ("or", V(g), V(h)))), ("cmp", "in", S("a"), V(arr))):
+        out.append(("ternary", FL(V(a)), c, None, (), ()))
+        out.append(("ternary", FL(S("y"), flt("upcase")), c, S("n"), (flt("append", S("!")),), ()))
+        out.append(("ternary", FL(V(g), flt("default", I(0))), c, V(h), (), (flt("json"), flt("size"))))
+        out.append(("ternary", FL(I(1)), c, NIL, (flt("default", S("d")), flt("upcase")), (flt("prepend", S(">")),)))
+    return out
+
+
+def bool_exprs(n: Names) -> list[tuple]:
+    a, g, h, arr = n.a, n.g, n.h, n.arr
+    atoms = [TRUE, FALSE, NIL, I(0), I(1), S("a"), S(""), V(g), V(h), V(arr), EMPTY, BLANK]
+    out: list[tuple] = list(atoms)
+    cmps = ["==", "!=", "<>", "<", ">", "<=", ">=", "contains", "in"]
+    for op in cmps:
+        for l, r in ((V(g), I(1)), (V(g), V(h)), (V(arr), V(g)), (S("abc"), S("b")), (V(h), EMPTY), (NIL, V(g))):
+            out.append(("cmp", op, l, r))
+    for l, r in itertools.product((V(g), ("not", V(h)), ("cmp", "==", V(g), I(1))), repeat=2):
+        out.append(("and", l, r))
+        out.append(("or", l, r))
+    out += [
+        ("and", V(g), ("or", V(h), V(arr))),
+        ("or", ("and", V(g), V(h)), V(arr)),
+        ("and", ("paren", ("or", V(g), V(h))), V(arr)),
+        ("not", ("paren", ("and", V(g), V(h)))),
+        ("not", ("not", V(g))),
+        ("or", ("not", V(g)), ("and", V(h), ("not", V(arr)))),
+        ("cmp", "==", ("paren", ("cmp", "<", V(g), I(2))), TRUE),
+    ]
+    return out
+
+
+def expr_sites(n: Names, e: tuple, *, shopify: bool = False) -> list[tuple]:
+    """Programs that put the (filtered / ternary) expression `e` in every tag position that takes one."""
+    a, i = n.a, n.i
+    sites: list[tuple] = [
+        (("out", e),),
+        (("echo", e),),
+        (("assign", a, e), ("out", V(a))),
+        (("liquid", (("assign", a, e), ("echo", V(a)))),),
+    ]
+    return sites
+
+
+def prim_sites(n: Names, p: tuple, *, shopify: bool = False) -> list[tuple]:
+    """Programs that put the primitive `p` in every tag position that takes a primitive."""
+    a, b, i, g, m, pn = n.a, n.b, n.i, n.g, n.m, n.p
+    sites: list[tuple] = [
+        (("if", ((("cmp", "==", p, V(g)), (("text", "y"),)),), (("text", "n"),)),),
+        (("if", ((p, (("text", "y"),)),), None),),
+        (("unless", ("cmp", "contains", V(g), p), (("text", "y"),), (), None),),
+        (("for", i, p, (), (("out", V(i)),), (("text", "none"),)),),
+        (("for", i, V(n.arr), (("limit", p),), (("out", V(i)),), None),),
+        (("for", i, V(n.arr), (("offset", p),), (("out", V(i)),), None),),
+        (("case", p, (((I(1), p), (("text", "w"),)),), (("text", "e"),)),),
+        (("case", V(g), (((p,), (("text", "w"),)),), None),),
+        (("cycle", None, (p, I(2))), ("cycle", None, (p, I(2)))),
+        (("with", ((a, p),), (("out", V(a)),)),),
+        (("include", S(pn), p, b, False, ()),),
+        (("include", S(pn), None, None, False, ((a, p),)),),
+        (("render", pn, p, b, False, ((a, p),)),),
+        (("render", pn, p, b, True, ()),),
+        (("macro", m, (("x", p),), (("out", V("x")),)), ("call", m, (), ()), ("call", m, (p,), ()), ("call", m, (), (("x", p),))),
+        (("out", FL(V(g), flt("default", p))),),
+        (("out", FL(V(g), flt("default", ("kw", "allow_false", p)))),),
+        (("out", ("ternary", FL(I(1)), TRUE, p, (), ())),),
+        (("out", ("ternary", FL(I(1)), FALSE, p, (), ())),),
+        (("out", FL(("array", (p, p)), flt("join", S("|")))),),
+    ]
+    if p[0] in ("int", "var", "str") or (p[0] == "raw" and "." not in p[1] and "-" not in p[1][1:]):
+        sites.append((("for", i, ("range", p, I(3)), (), (("out", V(i)),), None),))
+    if shopify:
+        sites.append((("tablerow", i, p, (("cols", I(2)),), (("out", V(i)),)),))
+        sites.append((("tablerow", i, V(n.arr), (("cols", p), ("limit", p)), (("out", V(i)),)),))
+    return sites
